@@ -55,8 +55,8 @@ def gen_trace(rng, max_events):
     """Well-formed trace of one thread: list of (kind, file, func, line, frame_key, arg)."""
     out, stack, nfr = [], [], [0]
 
-    def call():
-        file, func = rng.choice(FUNCS)
+    def call(same_as=None):
+        file, func = same_as or rng.choice(FUNCS)
         nfr[0] += 1
         stack.append(dict(file=file, func=func, key=nfr[0]))
         out.append(("call", file, func, 1, nfr[0], None))
@@ -66,6 +66,11 @@ def gen_trace(rng, max_events):
         r = rng.random()
         if r < 0.42:
             out.append(("line", top["file"], top["func"], rng.choice([2, 3, 4]), top["key"], None))
+            if rng.random() < 0.25 and len(stack) < 5:
+                # recursion right after a line: the line-opened context of the outer invocation is still pending while the inner
+                # invocation of the SAME name runs its own lines
+                call((top["file"], top["func"]))
+                out.append(("line", top["file"], top["func"], out[-2][3], nfr[0], None))
         elif r < 0.62 and len(stack) < 5:
             call()
         elif r < 0.70:
@@ -136,7 +141,22 @@ def deep_trace(rng, depth):
     return out
 
 
-def run_case(ctx, nthreads, max_events, deep=0):
+def nested_line_trace(rng, depth):
+    """Same-named recursion right after a line that opens a context: the line-opened contexts of all the outer invocations are
+    pending, one above the other, while the innermost invocation runs its lines; each ends at ITS invocation's next event."""
+    file, func = FUNCS[0]
+    out = []
+    for k in range(1, depth + 1):
+        out.append(("call", file, func, 1, k, None))
+        out.append(("line", file, func, 2, k, None))
+    for k in range(depth, 0, -1):
+        for _ in range(rng.choice([1, 2])):
+            out.append(("line", file, func, 3, k, None))
+        out.append(("return", file, func, 4, k, "ret-%d" % k))
+    return out
+
+
+def run_case(ctx, nthreads, max_events, deep=0, nested_line=0):
     rng = ctx.rng
     world = e2.World(logger=False, spans=rng.choice([1, 1, 2]), metrics=0)
     world.clear_pending()
@@ -150,9 +170,19 @@ def run_case(ctx, nthreads, max_events, deep=0):
                LocationAction("tp1", None, dict(conf, frame_type="no_frame", watches=[], stage="method_capture"), LocationAction.ActionType.Snapshot))
         trigs = [Trigger(FunctionLocation(file.rsplit("/", 1)[1], func, Location.Position.START), [act])]
         tdesc = [dict(tp="tp1", at="%s:%s()" % (file.rsplit("/", 1)[1], func), kind=kind, fire_count="-1", recursion_depth=deep)]
+    if nested_line:
+        from deep.api.tracepoint.trigger import LocationAction, Trigger, LineLocation, Location
+        file, func = FUNCS[0]
+        kind = rng.choice(["span", "lcap"])
+        conf = {"fire_count": "-1", "fire_period": "0"}
+        act = (LocationAction("tp1", None, dict(conf, span="line"), LocationAction.ActionType.Span) if kind == "span" else
+               LocationAction("tp1", None, dict(conf, frame_type="no_frame", watches=[], stage="line_capture"), LocationAction.ActionType.Snapshot))
+        trigs = [Trigger(LineLocation(file.rsplit("/", 1)[1], 2, Location.Position.START), [act])]
+        tdesc = [dict(tp="tp1", at="%s:2" % file.rsplit("/", 1)[1], kind=kind, fire_count="-1", nested_same_named_invocations=nested_line)]
     world.install(trigs)
     workers = [Worker(world) for _ in range(nthreads)]
-    traces = [deep_trace(rng, deep) if deep else gen_trace(rng, max_events) for _ in range(nthreads)]
+    traces = [deep_trace(rng, deep) if deep else nested_line_trace(rng, nested_line) if nested_line else gen_trace(rng, max_events)
+              for _ in range(nthreads)]
     frames = [dict() for _ in range(nthreads)]          # per thread: frame key -> frame object
     live = [[] for _ in range(nthreads)]                 # per thread: keys of running invocations
     pos = [0] * nthreads
@@ -210,6 +240,9 @@ def run_case(ctx, nthreads, max_events, deep=0):
             # did the completing invocation have a context of its own PENDING when this event arrived?
             # ... of the same kind (an invocation holds at most one context opened by its call and one opened by a line)
             inner_has_own = any(ctx_ids[id(b)][2] == key and b.event == c.event for b in before)
+            if c.event == "call" and has_capture and kind == "line":
+                fails.append(("method-capture-at-line", "context %d, a method capture opened by the call of invocation %d, was completed at a "
+                              "line event: its snapshot is sent without the value returned or raised by that invocation" % (cid, okey)))
             if okey != key and kind in ("return", "exception") and has_capture and not same_name:
                 fails.append(("completed-by-foreign-invocation",
                               "context %d opened by invocation %d of %s() was completed by the %s event of %s(), another function" % (
@@ -303,6 +336,11 @@ def run(ctx):
     n = 600 if ctx.thorough else 90
     for i in range(n):
         ls, desc = run_case(ctx, ctx.rng.choice([1, 1, 2, 3]), ctx.rng.choice([12, 30, 60]))
+        for x in ls:
+            lits.append(x)
+            cj.append(desc)
+    for depth in ([2, 3, 4, 6] if ctx.thorough else [2, 3]):
+        ls, desc = run_case(ctx, 1, 0, nested_line=depth)
         for x in ls:
             lits.append(x)
             cj.append(desc)
